@@ -166,3 +166,17 @@ package caskettls
 //@ // constructors and helpers that this directive's setup calls but that live outside setup.go: the same safety sweep
 //@ // (index, slice, division, nil-map store, nil dereference, explicit panic) as for the setup code itself
 //@ use @verif/specs/stdlib.spec:stdlib
+
+//@ unit config_for_client frames=on props=C06 nilchecks=on filter=`caskettls\.configGroup\)\.GetConfigForClient$`
+//@ // C06 "TLS settings follow SNI; no mixing": the callback net/http's TLS listener uses hands out exactly the tls.Config
+//@ // of the site configuration that getConfig selects for the client's server name (unit get_config), and nothing when
+//@ // getConfig selects none - never another site's configuration, never an error
+//@ func (configGroup).getConfig
+//@   modifies E:string, Config.GetCertificate
+//@   requires hello != nil && cg != nil && forallT(k, string, has(cg, k) ==> cg[k] != nil)
+//@ ghost selected int
+//@ func (configGroup).GetConfigForClient
+//@   requires clientHello != nil && cg != nil && forallT(k, string, has(cg, k) ==> cg[k] != nil)
+//@   modifies E:string, Config.GetCertificate, ghost:selected
+//@   at call (configGroup).getConfig do selected = result
+//@   ensures [the_selected_sites_tls_settings_or_none] result1 == nil && ((selected != 0 ==> result0 == (*Config)(selected).tlsConfig) && (selected == 0 ==> result0 == nil))
